@@ -125,7 +125,8 @@ fn rule_to_local_timestamp(start: &RuleDay, time: i32, timestamp: i64) -> i64 {
         }
         RuleDay::JulianDayWithLeap(doy) => {
             let year = DateTime::from_timestamp(timestamp).year();
-            year_doy_to_days(year, doy + 1, false).unwrap()
+            // Day 365 only exists in leap years. Counting from the first day of the year lets it roll over to the next year otherwise
+            year_doy_to_days(year, 1, false).unwrap() + *doy as i32
         }
         RuleDay::MonthWeekDay(month, week, day) => {
             let year = DateTime::from_timestamp(timestamp).year();
@@ -246,10 +247,16 @@ fn parse_tz_string_rule(
         b'J' => {
             cursor.read_exact(1).expect(BUG_MSG);
             let day = parse_int(cursor.read_while(|c: &u8| c.is_ascii_digit()))?;
+            if !(1..=365).contains(&day) {
+                return Err(TimeZoneError::InvalidTzFile("Invalid rule day in footer"));
+            }
             RuleDay::JulianDayWithoutLeap(day)
         }
         byte if byte.is_ascii_digit() => {
-            let day = parse_int(cursor.read_while(|c: &u8| c.is_ascii_digit())).expect(BUG_MSG);
+            let day = parse_int(cursor.read_while(|c: &u8| c.is_ascii_digit()))?;
+            if day > 365 {
+                return Err(TimeZoneError::InvalidTzFile("Invalid rule day in footer"));
+            }
             RuleDay::JulianDayWithLeap(day)
         }
         b'M' => {
@@ -261,6 +268,10 @@ fn parse_tz_string_rule(
 
             cursor.read_exact(1)?;
             let day = parse_int(cursor.read_while(|c| c.is_ascii_digit()))?;
+
+            if !(1..=12).contains(&month) || !(1..=5).contains(&week) || day > 6 {
+                return Err(TimeZoneError::InvalidTzFile("Invalid rule day in footer"));
+            }
 
             RuleDay::MonthWeekDay(month, week, day)
         }
